@@ -587,6 +587,15 @@ func (s *SweepingProvider) schedulePrefixNoLock(prefix bitstr.Key, justReprovide
 		// Already scheduled.
 		return
 	}
+	if !justReprovided && s.reprovideQueue != nil {
+		// The regions scheduled below `prefix` are about to be merged into it, but
+		// their keys aren't reprovided now. If their slot of the current cycle is
+		// still to come while the one of `prefix` has passed, they would skip the
+		// cycle: have them reprovided as late regions instead.
+		if subtrie, ok := keyspace.FindSubtrie(s.schedule, prefix); ok {
+			s.reprovideQueue.Enqueue(keyspace.AllKeys(subtrie, s.order)...)
+		}
+	}
 	// Unschedule superstrings in schedule if any.
 	s.unscheduleSubsumedPrefixesNoLock(prefix)
 
